@@ -46,6 +46,10 @@ def jobs(tier):
         add('write_job', 'write[%s,slice2d(:,::-1)]' % list(lv), lengths=lv, op=('slice2d', slice(None), slice(None, None, -1)))
         add('write_job', 'write[%s,slice2d-scalar(-1:,::-2)]' % list(lv), lengths=lv, op=('slice2d-scalar', slice(-1, None), slice(None, None, -2)))
         add('write_job', 'write[%s,slice2d-scalar(:5,-1:)]' % list(lv), lengths=lv, op=('slice2d-scalar', slice(None, 5), slice(-1, None)))
+        # backward column slices with a stride whose explicit start lies beyond the end of the shorter rows (clipped per row)
+        add('write_job', 'write[%s,slice2d-scalar(:,2::-2)]' % list(lv), lengths=lv, op=('slice2d-scalar', slice(None), slice(2, None, -2)))
+        add('write_job', 'write[%s,slice2d-scalar(:,3::-2)]' % list(lv), lengths=lv, op=('slice2d-scalar', slice(None), slice(3, None, -2)))
+        add('write_job', 'write[%s,slice2d-scalar(::-1,4::-3)]' % list(lv), lengths=lv, op=('slice2d-scalar', slice(None, None, -1), slice(4, None, -3)))
         if sum(lv) <= 4:
             add('write_job', 'write[%s,mask-assign]' % list(lv), lengths=lv, op=('mask-assign',))
         for opn in ('add', 'sub', 'mul', 'eq', 'lt', 'ge', 'floordiv', 'mod'):
